@@ -696,7 +696,15 @@ fn total_case(case: u64, rng: &mut Rng, rep: &mut Report, thorough: bool) {
     let (class, inputs) = gen_total_inputs(case, rng, thorough);
     rep.count(&format!("class:{class}"), inputs.len() as u64);
     let t0 = Instant::now();
+    let failures = |rep: &Report| rep.counters.get("total:inputs_without_result").copied().unwrap_or(0);
+    let failures_before = failures(rep);
     for (i, input) in inputs.iter().enumerate() {
+        // every input that kills a worker costs seconds (memory cap + attribution): after three in
+        // one case (typically the prefixes of one query) the rest of the case is skipped
+        if failures(rep) - failures_before >= 3 {
+            rep.count("total:inputs_skipped_after_3_worker_failures_in_one_case", (inputs.len() - i) as u64);
+            break;
+        }
         run_one_total(class, input, rep);
         if case < 40 && i == 0 {
             rep.sample(json!({"stream": "total", "class": class, "input": input.chars().take(120).collect::<String>()}));
